@@ -33,10 +33,13 @@ def run(check: Check, repo: Repo, tier: str) -> None:
     L.escape_tables(check, repo)
     L.block_escape(check, repo)
     L.escape_range(check, repo)
+    L.hex_digit_table(check, repo)
     L.block_flag(check, repo)
     L.printer_coverage(check, repo, model)
     L.parser_fields(check, repo, model)
     L.printer_per_return(check, repo, model)
+    L.print_direct(check, repo)
+    L.printer_no_cross_compare(check, repo, model)
     L.order_agree(check, repo, model, sides=("printer",), floor=30)
     L.ws_agree(check, repo, SCOPE + ['utilities.strip_ignored_characters'])
     check.note(node_classes=len(model.classes), kinds=len(model.kinds()), lt_sites=counts)
